@@ -51,7 +51,7 @@ pub fn spec_for3(property: &str) -> Option<CheckSpec> {
                 level: "exploration",
                 profiles: vec![p("live", 12), p("live+closerace", 4), p("live+slowdump", 3), p("conc-burst", 1), p("conc", 1)],
                 thorough_extra: vec![],
-                quick_runs: 8_000,
+                quick_runs: 12_000,
                 thorough_runs: 400_000,
                 quick_budget_s: 60,
                 thorough_budget_s: 600,
